@@ -97,7 +97,8 @@ const char *flatcc_verify_error_string(int err)
  */
 #define verify_runtime(cond, reason) verify(cond, reason)
 
-#define check_result(x) if (x) { return (x); }
+/* Evaluate `x` once: it recurses, and a second evaluation per level is exponential in the nesting depth. */
+#define check_result(x) do { int ret__tmp = (x); if (ret__tmp) { return ret__tmp; } } while (0)
 
 #define check_field(td, id, required, base) do {                            \
     int ret = get_offset_field(td, id, required, &base);                    \
